@@ -24,7 +24,25 @@ def gen_scenarios(rnd: random.Random, count, topos=TOPOS, max_r=4):
                     'failfast': rnd.random() < 0.6, 'abandon': [1] if rnd.random() < 0.25 else [],
                     'dur': {s: [rnd.choice([0, 0, 1, 2, 4]) for _ in range(nr + 1)] for s in stages},
                     'delay': [rnd.choice([0, 0, 1, 2]) for _ in range(nr + 1)],
-                    'bwait': rnd.choice([0, 1, 2]), 'hop': rnd.random() < 0.5, 'hook': rnd.random() < 0.5})
+                    'bwait': rnd.choice([0, 1, 2]), 'hop': rnd.random() < 0.5, 'hook': rnd.random() < 0.5,
+                    'flavour': rnd.choice(['sync', 'sync', 'async'])})
+    return out
+
+
+def corner_scenarios():
+    """The window of D7 (request ids must never be reused while the servlet tree still holds the old one), for Server and
+    AsyncServer: a fail-fast ensemble answers request 1 as soon as member A has failed, while member B is still busy with
+    request 1's input; later requests are submitted inside that window (their futures are created after request 1's future
+    died - the adversarial identity allocator then hands its identity out again)."""
+    out = []
+    for flavour in ('sync', 'async'):
+        # requests 1 and 2 fail fast in A (request 2's answer makes the gather thread let go of request 1's future), B stays
+        # busy with request 1's input; request 3 (and 4) arrive afterwards
+        for nr, delays in ((3, [0, 0, 1, 3]), (4, [0, 0, 1, 3, 4]), (3, [0, 0, 2, 4])):
+            out.append({'topo': 'ens', 'R': nr, 'fail': {'A': [1, 2], 'B': []}, 'pre': {'A': [], 'B': []},
+                        'route': ['A'] * nr, 'failfast': True, 'abandon': [],
+                        'dur': {'A': [0] * (nr + 1), 'B': [0, 9] + [0] * (nr - 1)}, 'delay': delays,
+                        'bwait': 0, 'hop': False, 'hook': False, 'flavour': flavour})
     return out
 
 
@@ -71,6 +89,37 @@ def _install():
     _installed = True
     from mbt import detsched
     from mpservice.mpserver import _worker
+    import asyncio
+    import asyncio.base_events
+    import asyncio.futures
+    import asyncio.tasks
+    # AsyncServer scenarios: the loop runs in a detsched thread; pure-Python Future / Task (their locks and callbacks are then
+    # ordinary Python code under the scheduler)
+    PyF, PyT = asyncio.futures._PyFuture, asyncio.tasks._PyTask
+    asyncio.Future = asyncio.futures.Future = PyF
+    asyncio.Task = asyncio.tasks.Task = PyT
+    asyncio.base_events.futures.Future = PyF
+    asyncio.base_events.tasks.Task = PyT
+    # C02 quantifies over "every legal behaviour of the object-identity allocator used to mint request ids": should the code
+    # under test derive request ids from `id(some future)`, this adversarial - but legal - allocator gives a new future the
+    # identity of the most recently DEAD one (identities are only unique among objects alive at the same time).  The code as it
+    # is (a counter) never calls it.
+    import concurrent.futures
+    import weakref
+    from mpservice.mpserver import _server
+    dead = _ctx.setdefault('dead_ids', [])
+
+    def adversarial_id(obj):
+        if isinstance(obj, (concurrent.futures.Future, asyncio.futures._PyFuture)):
+            d = obj.__dict__
+            if '_verif_id' not in d:
+                v = dead.pop() if dead else id(obj)
+                d['_verif_id'] = v
+                weakref.finalize(obj, dead.append, v)
+            return d['_verif_id']
+        return id(obj)
+
+    _server.id = adversarial_id
     Q = _worker._SimpleThreadQueue
     oget = Q.get
 
@@ -223,12 +272,17 @@ def _make_scenario(sc):
         _ctx['hop'] = bool(sc.get('hop'))
         _ctx['uid'].clear()
         _ctx['nextu'][0] = 0
+        _ctx.setdefault('dead_ids', []).clear()
         servlet = build()
         server = Server(servlet, capacity=16)
         server._uid_to_futures = Ledger()
         orig = server._enqueue
 
         def enqueue(x, *a, **k):
+            # (a future that failed sits in a reference cycle with its exception's traceback; the cyclic collector - switched
+            # off during scheduled runs - would free it at some arbitrary moment: here, which is the moment that matters)
+            import gc
+            gc.collect()
             tl.r = req_of(x)
             try:
                 return orig(x, *a, **k)
@@ -252,27 +306,17 @@ def _make_scenario(sc):
             if sc['delay'][r]:
                 time.sleep(sc['delay'][r] * U)
             timeout = 3 * U if r in sc['abandon'] else 1000.0
+            # (the exception is examined inside the `except` block and not kept: a local variable holding it would form a
+            # reference cycle with its own traceback and keep the request's future alive for ever)
             try:
                 y = server.call(('in', r), timeout=timeout)
             except MpTimeout:
                 detsched.emit('Abandon', r=r)
                 return
             except (ElemError, Exception) as e:
-                y = e
-            d = decode(y)
-            tb = True
-            if d['k'] == 'e':
-                # C04: original type (ElemError, checked by decode), original args, and the traceback of the failure site
-                from mpservice.multiprocessing.remote_exception import get_remote_traceback, is_remote_exception
-                import traceback
-                try:
-                    # as text once it has crossed a process boundary, as live frames otherwise (thread servlets)
-                    txt = get_remote_traceback(y) if is_remote_exception(y) else ''.join(traceback.format_exception(y))
-                except Exception:
-                    txt = ''
-                tb = ('raise ElemError' in txt and ('in call' in txt or 'in preprocess' in txt)
-                      and y.args == (d['req'], d['path'][0]))
-            detsched.emit('Ret', r=r, tb=bool(tb), **d)
+                report(r, e)
+                return
+            report(r, y)
 
         ths = [threading.Thread(target=caller, args=(r,), name=f'caller-{r}') for r in range(1, R + 1)]
         for t in ths:
@@ -285,7 +329,96 @@ def _make_scenario(sc):
         names = [t.name for t in sched.alive() if t is not sched.root]
         detsched.emit('Exit', leftover=len(names))
 
-    return root
+    def name_queues(server, servlet):
+        qn = _ctx['qname']
+        qn[id(server._q_in)] = 'in'
+        qn[id(server._q_out)] = 'out'
+        if topo == 'seq':
+            qn[id(servlet._qs[0])] = 'm1'
+        if topo == 'ens':
+            qn[id(servlet._qins[0])], qn[id(servlet._qins[1])] = 'ma', 'mb'
+            qn[id(servlet._qouts[0])], qn[id(servlet._qouts[1])] = 'oa', 'ob'
+        if topo == 'switch':
+            qn[id(servlet._qins[0])], qn[id(servlet._qins[1])] = 'ma', 'mb'
+
+    def report(r, y):
+        d = decode(y)
+        tb = True
+        if d['k'] == 'e':
+            # C04: original type (ElemError, checked by decode), original args, and the traceback of the failure site: as
+            # text once it has crossed a process boundary, as live frames otherwise (thread servlets)
+            from mpservice.multiprocessing.remote_exception import get_remote_traceback, is_remote_exception
+            import traceback
+            try:
+                txt = get_remote_traceback(y) if is_remote_exception(y) else ''.join(traceback.format_exception(y))
+            except Exception:
+                txt = ''
+            tb = ('raise ElemError' in txt and ('in call' in txt or 'in preprocess' in txt)
+                  and y.args == (d['req'], d['path'][0]))
+        detsched.emit('Ret', r=r, tb=bool(tb), **d)
+
+    def root_async():
+        # the same scenario on AsyncServer: the callers are tasks of one event loop (running in this detsched thread), the
+        # gather thread and the servlet tree are the same threads as for Server
+        import asyncio
+        import contextvars
+        from mpservice.mpserver import AsyncServer
+        sched = detsched.current()
+        _ctx['qname'].clear()
+        _ctx['hop'] = bool(sc.get('hop'))
+        _ctx['uid'].clear()
+        _ctx['nextu'][0] = 0
+        _ctx.setdefault('dead_ids', []).clear()
+        cur = contextvars.ContextVar('verif_req', default=0)
+
+        class ALedger(dict):
+            def __setitem__(self, uid, fut):
+                dict.__setitem__(self, uid, fut)
+                detsched.emit('Submit', r=cur.get(), u=small_uid(uid))
+
+        async def main():
+            servlet = build()
+            server = AsyncServer(servlet, capacity=16)
+            server._uid_to_futures = ALedger()
+            orig = server._enqueue
+
+            async def enqueue(x, *a, **k):
+                import gc
+                gc.collect()      # see the sync variant
+                tok = cur.set(req_of(x))
+                try:
+                    return await orig(x, *a, **k)
+                finally:
+                    cur.reset(tok)
+
+            server._enqueue = enqueue
+            await server.__aenter__()
+            name_queues(server, servlet)
+
+            async def caller(r):
+                if sc['delay'][r]:
+                    await asyncio.sleep(sc['delay'][r] * U)
+                timeout = 3 * U if r in sc['abandon'] else 1000.0
+                try:
+                    y = await server.call(('in', r), timeout=timeout)
+                except MpTimeout:
+                    detsched.emit('Abandon', r=r)
+                    return
+                except (ElemError, Exception) as e:
+                    report(r, e)
+                    return
+                report(r, y)
+
+            await asyncio.gather(*[caller(r) for r in range(1, R + 1)])
+            await asyncio.sleep(2.0)
+            detsched.emit('Idle', backlog=server.backlog)
+            await server.__aexit__(None, None, None)
+
+        asyncio.run(main())
+        names = [t.name for t in sched.alive() if t is not sched.root]
+        detsched.emit('Exit', leftover=len(names))
+
+    return root_async if sc.get('flavour') == 'async' else root
 
 
 # worker ids of the spec by thread name: single/seq stage 1: wk-0 -> 1, wk-1 -> 2; seq stage 2: wkb-0 -> 3; ens/switch: wka-0 -> 1, wkb-0 -> 2
